@@ -277,5 +277,6 @@ pub fn spec_c03() -> PropSpec {
         nt_rule: "",
         engine: "seq",
         runner: None,
+        decode: None,
     }
 }
